@@ -28,6 +28,11 @@ type opSpec struct {
 	N       int      `json:"n,omitempty"`
 	CrashAt int      `json:"crash_at,omitempty"`           // the simulated process dies at this scheduler step
 	IOErrPM int      `json:"io_error_per_mille,omitempty"` // every file operation of this process fails with this probability
+	// Between (with run_twice): a source edit the process applies between its two runs
+	// (watch mode: the edit lands right after a build returned; bodies told to fail do so in
+	// the first run only). GCAfter: the process collects garbage right after its build returned.
+	Between *opSpec `json:"between,omitempty"`
+	GCAfter bool    `json:"gc_after_run,omitempty"`
 }
 
 // Edit classes.
